@@ -2492,6 +2492,43 @@ v("C09", "map-table-wrong-unit", "httpgrpc/server.go", "	'M': time.Minute,", "	'
 v("C09", "map-table-no-zero-guard", "httpgrpc/server.go", "			if unit != 0 {", "			if true {", "R2", "unknown-unit",
   "map-table form: an unknown suffix (zero unit) is multiplied anyway: immediate expiry instead of no deadline", patch="refactors/D2-r4/patch.diff")
 
+# ------------------------------------------------------------------ wave-5 rules
+v("C20", "ondone-after-lock", "inprocgrpc/in_process.go",
+  "func (s *inProcessServerStream) finish(err error) {\n	s.onDone()\n\n	s.mu.Lock()\n", "func (s *inProcessServerStream) finish(err error) {\n	s.mu.Lock()\n	s.onDone()\n", "R5", "done-signal-takes-no-write-lock",
+  "the completion signal queues behind the send mutex: with a second goroutine parked in SendMsg the client's blocked sender is not released when the handler returns")
+v("C05", "ondone-after-lock", "inprocgrpc/in_process.go",
+  "func (s *inProcessServerStream) finish(err error) {\n	s.onDone()\n\n	s.mu.Lock()\n", "func (s *inProcessServerStream) finish(err error) {\n	s.mu.Lock()\n	s.onDone()\n", "R7", "done-signal-takes-no-write-lock",
+  "the completion signal queues behind the send mutex")
+v("C20", "send-select-one-done-picked", "inprocgrpc/in_process.go",
+  """	var remote <-chan struct{}
+	if remoteCtx != nil {
+		remote = remoteCtx.Done()
+	}
+	select {
+	case ch <- m:
+	case <-ctx.Done():
+	case <-remote:""", """	remote := ctx.Done()
+	if remoteCtx != nil {
+		remote = remoteCtx.Done()
+	}
+	select {
+	case ch <- m:
+	case <-remote:
+		if ctx.Err() != nil {
+			return ctx.Err()
+		}""", "R2", "own-context-arm", "one Done channel picked between the two contexts: the call's own context is not watched while the peer's is")
+v("C20", "send-select-own-done-local", "inprocgrpc/in_process.go",
+  """	select {
+	case ch <- m:
+	case <-ctx.Done():
+	case <-remote:""", """	own := ctx.Done()
+	select {
+	case ch <- m:
+	case <-own:
+	case <-remote:""", silent=True, why="the call's own Done channel taken into a local first")
+v("C20", "finish-reads-state-after-signal", "inprocgrpc/in_process.go",
+  "func (s *inProcessServerStream) finish(err error) {\n	s.onDone()\n\n	s.mu.Lock()\n", "func (s *inProcessServerStream) finish(err error) {\n	done := s.onDone\n	done()\n\n	s.mu.Lock()\n", silent=True, why="the completion CancelFunc read into a local, still called before the lock")
+
 
 def main():
     if os.path.isdir(OUT):
